@@ -52,8 +52,8 @@ def run_props(root, props=PROPS):
                 try:
                     repo = Repo(root)
                     run = Run(prop, "quick", getattr(mod, "LEVEL", "other"), 0)
-                    mod.run(repo, run, "quick")
-                    rc = run.finish()
+                    from sa.report import run_rules
+                    rc = run_rules(mod, repo, run, "quick")
                 except AnalysisError as e:
                     rc = 2
                     print("ANALYSIS-ERROR %s" % e)
